@@ -158,7 +158,7 @@ fn s(x: impl ToString) -> String {
 
 pub fn jobs_c03(quick: bool) -> Vec<Job> {
     let mut v = Vec::new();
-    let t = if quick { 60 } else { 900 };
+    let t = if quick { 60 } else { 400 };
     for pb in bounds(quick) {
         // (fen, fen2, depth, workers, tables, buckets)
         let mut menu: Vec<(&str, Option<&str>, usize, usize, usize, usize)> = vec![
@@ -169,9 +169,12 @@ pub fn jobs_c03(quick: bool) -> Vec<Job> {
             ("4k3/8/8/3pP3/8/8/8/4K3 w - d6 0 1", Some("4k3/8/8/3pP3/8/8/8/4K3 w - - 0 1"), 2, 2, 1, 64),
             ("8/4P1k1/8/8/8/8/8/4K3 w - - 0 1", None, 2, 2, 2, 4),
         ];
-        if !quick || pb != Some(2) {
+        if pb != Some(3) {
+            // depth 3, two workers: 2*10^4 schedules at bound 2 (about 10 s)
             menu.push((KPK, None, 3, 2, 1, 64));
-            menu.push((KPK, None, 3, 2, 1, 1));
+            if !quick || pb != Some(2) {
+                menu.push((KPK, None, 3, 2, 1, 1));
+            }
         }
         if !quick {
             menu.push(("r3k3/8/8/8/8/8/8/4K2R w Kq - 0 1", Some("r3k3/8/8/8/8/8/8/4K2R w - - 0 1"), 2, 2, 1, 8));
@@ -185,12 +188,18 @@ pub fn jobs_c03(quick: bool) -> Vec<Job> {
             v.push(job("workers_lines", pb, t, &a));
         }
     }
+    if !quick {
+        // the smallest harnesses without any preemption bound: every schedule
+        v.push(job("workers_lines", None, 900, &[("fen", s(KPK)), ("depth", s(1)), ("workers", s(2)), ("tables", s(1)), ("buckets", s(1))]));
+        v.push(job("workers_lines", None, 900, &[("fen", s(KPK)), ("depth", s(1)), ("workers", s(3)), ("tables", s(1)), ("buckets", s(64))]));
+        v.push(job("workers_lines", None, 1500, &[("fen", s(KPK)), ("depth", s(2)), ("workers", s(2)), ("tables", s(1)), ("buckets", s(64))]));
+    }
     v
 }
 
 pub fn jobs_c04(quick: bool) -> Vec<Job> {
     let mut v = Vec::new();
-    let t = if quick { 60 } else { 900 };
+    let t = if quick { 60 } else { 400 };
     for pb in bounds(quick) {
         for script in ["join", "stop-join", "stop-twice", "drop-receiver-stop", "drop-sender", "stop-after-completion"] {
             for fen in [KPK, "7k/5Q2/6K1/8/8/8/8/8 b - - 0 1", "k7/8/1K6/8/8/8/8/1Q6 w - - 0 1"] {
@@ -229,11 +238,11 @@ fn good_moves(tb: &Tablebase, p: &Pos) -> String {
 pub fn jobs_c06(quick: bool) -> Vec<Job> {
     let tb = Tablebase::build(threads());
     let mut v = Vec::new();
-    let t = if quick { 60 } else { 900 };
+    let t = if quick { 60 } else { 400 };
     let mut roots: Vec<(Pos, u16)> = Vec::new();
     for k in [QUEEN, ROOK] {
         for n in [1u16, 3] {
-            for p in tb_examples(&tb, k, n, if quick { 2 } else { 5 }) {
+            for p in tb_examples(&tb, k, n, if quick { 2 } else { 3 }) {
                 roots.push((p.clone(), n));
                 roots.push((p.mirror(), n));
             }
@@ -245,8 +254,9 @@ pub fn jobs_c06(quick: bool) -> Vec<Job> {
         for (p, n) in &roots {
             let depths: Vec<usize> = if *n == 99 { vec![2] } else { (*n as usize..=3).collect() };
             for d in depths {
-                // depth 3 with two preemptions is 4*10^4..10^5 schedules per root: thorough only
-                if quick && pb == Some(2) && d == 3 {
+                // depth 3 with two preemptions is 4*10^4..10^5 schedules per root: thorough only,
+                // and not with three preemptions (10^6 and more)
+                if (quick && pb == Some(2) && d == 3) || (pb == Some(3) && d == 3) {
                     continue;
                 }
                 v.push(job("workers_mate", pb, t, &[("fen", p.fen()), ("depth", s(d)), ("workers", s(2)), ("tables", s(1)), ("buckets", s(32)), ("root-win", s(root_win(&tb, p))), ("good", good_moves(&tb, p))]));
@@ -261,7 +271,7 @@ pub fn jobs_c06(quick: bool) -> Vec<Job> {
 
 pub fn jobs_c15(quick: bool) -> Vec<Job> {
     let mut v = Vec::new();
-    let t = if quick { 60 } else { 900 };
+    let t = if quick { 60 } else { 400 };
     for (tables, buckets) in [(1, 1), (2, 1), (1, 2), (2, 3)] {
         for variant in 0..6 {
             // tiny harnesses: all schedules (no preemption bound)
@@ -274,7 +284,7 @@ pub fn jobs_c15(quick: bool) -> Vec<Job> {
 pub fn jobs_c17(quick: bool) -> Vec<Job> {
     use oracle::tb::mate_distance;
     let mut v = Vec::new();
-    let t = if quick { 60 } else { 900 };
+    let t = if quick { 60 } else { 400 };
     let tb = Tablebase::build(threads());
     let mut roots = vec![Pos::from_fen("8/8/8/8/8/k2r4/8/K7 b - - 4 3").unwrap()];
     for k in [QUEEN, ROOK] {
@@ -316,7 +326,7 @@ pub fn jobs_c17(quick: bool) -> Vec<Job> {
 
 pub fn jobs_c19(quick: bool) -> Vec<Job> {
     let mut v = Vec::new();
-    let t = if quick { 60 } else { 900 };
+    let t = if quick { 60 } else { 400 };
     let mut bs = bounds(quick);
     bs.push(Some(3));
     bs.dedup();
